@@ -14,6 +14,8 @@ pub struct Env<'a> {
     pub inner: Slice,
     pub consts: HashMap<Key, Val>,
     pub cache: RefCell<HashMap<Formula, Table>>,
+    /// problem constant -> input symbol it denotes (documented `s` -> `s__s` renaming)
+    pub sym_override: HashMap<String, Val>,
 }
 
 impl<'a> Env<'a> {
@@ -23,6 +25,7 @@ impl<'a> Env<'a> {
         }
         let mut g = G::new(self.u, self.outer.clone(), self.inner.clone());
         g.consts = self.consts.clone();
+        g.sym_override = self.sym_override.clone();
         let p = g.ground(f);
         let t = self.sp.cl(&p);
         self.cache.borrow_mut().insert(f.clone(), t.clone());
@@ -31,6 +34,7 @@ impl<'a> Env<'a> {
     pub fn formula_p(&self, f: &Formula) -> P {
         let mut g = G::new(self.u, self.outer.clone(), self.inner.clone());
         g.consts = self.consts.clone();
+        g.sym_override = self.sym_override.clone();
         g.ground(f)
     }
     /// interpretations that make all axioms true and the (conjunction of) conjecture(s) false
@@ -52,4 +56,21 @@ impl<'a> Env<'a> {
 
 pub fn n_conjectures(p: &Problem) -> usize {
     p.formulas.iter().filter(|f| f.role == Role::Conjecture).count()
+}
+
+/// denotation of renamed symbols: `s__s` stands for the input symbol `s` when the problems
+/// have a propositional predicate `s`
+pub fn renamed_symbols(problems: &[Problem]) -> HashMap<String, Val> {
+    let mut m = HashMap::new();
+    for p in problems {
+        let props: Vec<String> = p.predicates().into_iter().filter(|q| q.arity == 0).map(|q| q.symbol).collect();
+        for s in p.symbols() {
+            if let Some(base) = s.strip_suffix("__s") {
+                if props.contains(&base.to_string()) {
+                    m.insert(s.clone(), Val::Sym(base.to_string()));
+                }
+            }
+        }
+    }
+    m
 }
